@@ -62,6 +62,13 @@ func runC17(c *Ctx) {
 	c.readOnlyEntryPoints("DET-INPUT", "leaves its input and all package-level state unchanged", 12,
 		": writing or querying the same value a second time (or another value afterwards) can then give a different result although the caller changed nothing")
 
+	// reading the same bytes twice gives equal results only if no read can change what a later
+	// read sees: memory owned by a package-level variable (or by the value of a memoising function)
+	// is not written after initialisation and no un-cloned reference to it is handed to a
+	// PostScript program, which could write through it (`put`, `putinterval`).  Same analysis as
+	// C18 (ISO-SHARED, ISO-GLOBALSTORE), recorded here for the history clause of this property.
+	c.withOnly([]string{"ISO-SHARED", "ISO-GLOBALSTORE"}, func() { runC18(c) })
+
 	// positive control: the same rules must fire on the control package
 	ctl := c.loadControl("ctl17")
 	fired := map[string]int{}
